@@ -194,7 +194,7 @@ class Scheduler (object):
     with self._lock:
       if self._callLaterTask is None:
         self._callLaterTask = CallLaterTask()
-        self._callLaterTask.start()
+        self._callLaterTask.start(self)
 
     self._callLaterTask.callLater(func, *args, **kw)
 
@@ -243,7 +243,7 @@ class Scheduler (object):
       return True
 
     st = ScheduleTask(self, task)
-    st.start(fast=True)
+    st.start(self, fast=True)
 
   def fast_schedule (self, task, first = False):
     """
